@@ -24,8 +24,8 @@ def specs_for(ctx):
         dict(D=2, target="sphere", box="sym", noise="auto", sigma=0.2, cons="band", options=dict(max_fun_evals=60, noise_final_samples=1), seed=sd + 6),
         dict(D=2, target="outside", box="sym", noise="det", cons="tinyball", options=dict(max_fun_evals=70), seed=sd + 7),
         dict(D=2, target="sphere", box="sym", noise="det", cons="ball", x0="absent", options=dict(max_fun_evals=50), seed=sd + 9),
-        dict(D=2, target="sphere", box="sym", noise="det", cons="stripes", x0="absent", options=dict(max_fun_evals=60, fun_eval_start=16), seed=sd + 10),
-        dict(D=2, target="outside", box="sym", noise="det", cons="stripes", x0="absent", options=dict(max_fun_evals=70, search_grid_number=4, fun_eval_start=32), seed=sd + 11),
+        dict(D=2, target="sphere", box="sym", noise="det", cons="stripes", x0_value=[0.3, 0.3], options=dict(max_fun_evals=60, fun_eval_start=16), seed=sd + 10),
+        dict(D=2, target="outside", box="sym", noise="det", cons="stripes", x0_value=[0.375, 0.375], options=dict(max_fun_evals=70, search_grid_number=4, fun_eval_start=32), seed=sd + 11),
         dict(D=2, target="outside", box="sym", noise="declared", sigma=0.2, cons="tinyhalf", options=dict(max_fun_evals=70, noise_final_samples=2), seed=sd + 8),
     ]
     return specs
